@@ -7,6 +7,8 @@ CONSTANTS
   Ks = {1}
   NsSeq <- Ns1
   WithEmpty = TRUE
+  CfgRs = {TRUE, FALSE}
+  CfgSs = {TRUE, FALSE}
 VIEW view
 INVARIANTS RefsOK DiskOK ObjsCanon LatentUnreachable ReadsCorrect OpensCorrect
 CHECK_DEADLOCK FALSE
